@@ -20,3 +20,12 @@ Print Assumptions C14_gen_constants_agree.
 Theorem C14_gen_align_agrees : forall p, (p < 2 ^ 60)%N -> GenLz4.align p = N.of_nat (Lz4Model.align (N.to_nat p)).
 Proof. exact gen_lz4_align_agrees. Qed.
 Print Assumptions C14_gen_align_agrees.
+
+(* A literal or match length never wraps: the extension bytes only add to it, and the sum stops at the largest 32-bit value (with a wrapping
+   sum, 16 MiB of 0xff bytes brought a length back to a small value and the decoder accepted a block every LZ4 decoder refuses). *)
+Theorem C14_length_extension_never_wraps : forall s l, (l < U32)%N -> (l <= fst (read_ext s l) < U32)%N.
+Proof. exact read_ext_monotone. Qed.
+Print Assumptions C14_length_extension_never_wraps.
+Theorem C14_length_extension_tied : GenLz4.ext_saturates = 1%N.
+Proof. exact gen_ext_saturates. Qed.
+Print Assumptions C14_length_extension_tied.
